@@ -85,6 +85,7 @@ SPECIAL = [
     "[Fe+3]>>[Fe+2]", "[Cu+2].[I-].[I-]>>[Cu+].[I-].[I-]", "CC(=O)[O-].BrBr>>CC(=O)[O-].[Br-].[Br-]",
     "[O-][O-]>>[OH-].[OH-]", "[Cl-]>>[Cl-].[Cl-]",
     # bonds written with a ring-closure digit across a dot (C1.C1 is ethane, C1.N1 methylamine)
+    "CCBr>>N", "C>>N", "[Na+].[Cl-]>>CCO",      # reach the MCS stage, nothing in common
     "C1.C1.O>>O", "CC(=O)O.OCC.C1.N1>>CC(=O)OCC.O", "CCO>>CCO.C1.O1", "C1.C1>>CC", "CC(=O)OCC.C1.C1>>CC(=O)O.CC",
 ]
 
